@@ -476,3 +476,118 @@ Section FormattedRand.
     end.
   Definition formatted_rand : prov := {| St := rstate; init := (init P, 0); step := frand_step |}.
 End FormattedRand.
+
+(* ---------- the same with a formatter that EMBEDS the key it is given in the formatted value (the EDV encrypted
+   formatter: the encrypted document carries the unformatted key, value and tags; Deformat returns the embedded key).
+   [fix13 = false]: as found, the overwrite paths handed the FORMATTED key to the formatter (obs #13): afterwards
+   Deformat returns the formatted key, so query iterators show it as Key() and the internal Key tag is not removed from
+   Tags().  [fix13 = true]: the unformatted key is handed over (fix 8f3c855). ---------- *)
+Definition emb (kemb x : N) : N := 1000000 * (kemb + 1) + x.
+Definition emb_key (y : N) : N := y / 1000000 - 1.
+Definition emb_val (y : N) : N := y mod 1000000.
+
+Section FormattedRandEmbed.
+  Variable fix13 : bool.
+  Variable F : formatter.
+  Variable P : prov.
+  Definition runfmt_entry_e (ke : key * entry) : key * entry :=
+    let k := emb_key (fst (snd ke)) in
+    (k, (uv F (emb_val (fst (snd ke))), drop_keytag k (map (unfmt_tag F) (snd (snd ke))))).
+  Definition key_arg (k f : key) : key := if fix13 then k else f.   (* what the overwrite paths give to Format *)
+  Fixpoint rbulk_e (m : St P) (ks : list key) : St P * option (list val) :=
+    match ks with
+    | [] => (m, Some [])
+    | k :: r =>
+        let '(m1, x) := rfind F P m k in
+        match x with
+        | FErr => (m1, None)
+        | FNone => let '(m2, y) := rbulk_e m1 r in (m2, option_map (cons 0) y)
+        | FOne _ e => let '(m2, y) := rbulk_e m1 r in (m2, option_map (cons (uv F (emb_val (fst e)))) y)
+        end
+    end.
+  Fixpoint rbatch_e (m : St P) (n : N) (res : list (key * key)) (b : list bop) : St P * N * option (list bop) :=
+    match b with
+    | [] => (m, n, Some [])
+    | (k, v, t) :: rest =>
+        let '(m1, fo) :=
+          match res_lookup res k with
+          | Some f => (m, Some f)
+          | None => let '(m1, x) := rfind F P m k in
+                    (m1, match x with FNone => Some 0 | FOne f _ => Some f | FErr => None end)
+          end in
+        match fo with
+        | None => (m1, n, None)
+        | Some f =>
+            if N.eqb v 0 then
+              if N.eqb f 0 then rbatch_e m1 n res rest
+              else let '(m2, n2, y) := rbatch_e m1 n ((k, 0) :: res) rest in (m2, n2, option_map (cons (f, 0, [])) y)
+            else
+              let f' := if N.eqb f 0 then fresh n else f in
+              let n' := if N.eqb f 0 then n + 1 else n in
+              let ka := if N.eqb f 0 then k else key_arg k f in
+              let '(m2, n2, y) := rbatch_e m1 n' ((k, f') :: res) rest in
+              (m2, n2, option_map (cons (f', emb ka (fv F v), rfmt_tags F k t)) y)
+        end
+    end.
+  Definition frande_step (s : rstate P) (o : op) : rstate P * out :=
+    let '(m, n) := s in
+    match o with
+    | Put k v t =>
+        if valid_put k v t then
+          let '(m1, x) := rfind F P m k in
+          match x with
+          | FErr => ((m1, n), OErr)
+          | FNone => let '(m2, r) := step P m1 (Put (fresh n) (emb k (fv F v)) (rfmt_tags F k t)) in
+                     ((m2, n + 1), if is_done r then ODone else err_of r)
+          | FOne f _ => let '(m2, r) := step P m1 (Put f (emb (key_arg k f) (fv F v)) (rfmt_tags F k t)) in
+                        ((m2, n), if is_done r then ODone else err_of r)
+          end
+        else (s, OErr)
+    | Get k =>
+        if N.eqb k 0 then (s, OErr) else
+        let '(m1, x) := rfind F P m k in
+        ((m1, n), match x with FErr => OErr | FNone => ONotFound | FOne _ e => OVal (uv F (emb_val (fst e))) end)
+    | GetTags k =>
+        if N.eqb k 0 then (s, OErr) else
+        let '(m1, x) := rfind F P m k in
+        ((m1, n), match x with
+                  | FErr => OErr | FNone => ONotFound
+                  | FOne f e => OTags (drop_keytag k (snd (snd (runfmt_entry_e (f, e)))))
+                  end)
+    | GetBulk ks =>
+        if is_nil ks || has_empty_key ks then (s, OErr) else
+        let '(m1, y) := rbulk_e m ks in ((m1, n), match y with Some vs => OBulk vs | None => OErr end)
+    | Query q =>
+        let q' := match q with
+                  | [c] => Some [fcrit F c]
+                  | _ => if Nat.leb 2 (length (filter (fun c => negb (N.eqb (snd c) 0)) q)) then None
+                         else Some (if conj_pass F then q else [(odd_name, 0)])
+                  end in
+        match q' with
+        | None => (s, OErr)
+        | Some uq =>
+            if is_nil q then (s, OErr) else
+            let '(m1, r) := step P m (Query uq) in
+            ((m1, n), match r with OQuery l => OQuery (map runfmt_entry_e l) | _ => err_of r end)
+        end
+    | Delete k =>
+        if N.eqb k 0 then (s, OErr) else
+        let '(m1, x) := rfind F P m k in
+        match x with
+        | FErr => ((m1, n), OErr)
+        | FNone => ((m1, n), ODone)
+        | FOne f _ => let '(m2, r) := step P m1 (Delete f) in ((m2, n), if is_done r then ODone else err_of r)
+        end
+    | Batch b =>
+        if has_empty_key (map bop_key b) then (s, OErr) else
+        let '(m1, n1, y) := rbatch_e m n [] b in
+        match y with
+        | None => ((m1, n1), OErr)
+        | Some eo =>
+            if negb (is_nil b) && is_nil eo then ((m1, n1), ODone)
+            else let '(m2, r) := step P m1 (Batch eo) in ((m2, n1), if is_done r then ODone else err_of r)
+        end
+    | Flush | Reopen => let '(m1, r) := step P m o in ((m1, n), if is_done r then ODone else err_of r)
+    end.
+  Definition formatted_rand_embed : prov := {| St := rstate P; init := (init P, 0); step := frande_step |}.
+End FormattedRandEmbed.
